@@ -1,6 +1,6 @@
 from check import Job
 EXPLANATION = 'SwarmCoordinator::compute_plan over the real KademliaTable: every shard goes to exactly one provider, providers are distinct live peers other than the node, each gets at least one shard, counts differ by at most one, and the provider count follows the stated formula for every configuration and threshold'
-ASSUMPTIONS = ['table contents per job: 0..4 live remote contacts, optionally an expired contact and the local id; 1..6 shards; swarm_min_providers / swarm_target_replicas (all 16-bit values), candidate sample 0..8 and the manifest threshold (all 8-bit values) symbolic',
+ASSUMPTIONS = ['the leases of the first two contacts are either long (100+ s) or in their last half second (symbolic choice, enumerated), the others long: leases are concrete numbers because the ranking score is floating point', 'table contents per job: 0..4 live remote contacts, optionally an expired contact and the local id; 1..6 shards; swarm_min_providers / swarm_target_replicas (all 16-bit values), candidate sample 0..8 and the manifest threshold (all 8-bit values) symbolic',
                'peer load snapshot empty and score jitter fixed (uniform_real_distribution redirected: libstdc++ implements it with long double): the property does not depend on the order of equally eligible candidates, only on their number',
                'diagnostics text (std::ostringstream) is a sink in the engine; the provider-count formula is asserted when the local id is not in the table (with it, one sampled slot may be lost before the local id is filtered out)']
 R = {r'uniform_real_distributionIdEclISt23mersenne_twister_engine.*EEEdRT_$': 'h_jitter'}
